@@ -5,7 +5,7 @@ EXTENDS Pitch, TLC, Json, IOUtils, SequencesExt
 CONSTANTS K,      \* accidental strings up to this length, every order
           KP,     \* names used for ordered pairs (enharmonic test)
           M       \* malformed strings up to this length
-Alphabet == {"A","B","C","D","E","F","G","H","c","#","b","x","1"," ","-","\n","\t"}
+Alphabet == {"A","B","C","D","E","F","G","H","c","#","b","x","1"," ","-","\n","\t","%"}
 Strings(m) == UNION {[1..j -> Alphabet] : j \in 1..m}
 \* products are written compactly (the harness expands them mechanically): all ordered pairs over a name set,
 \* all non-empty strings over the alphabet up to a length
